@@ -130,6 +130,7 @@ func (c *Ctx) ValidateTraces(traces []*Trace, o ValidateOpts) []Rejection {
 		}(ch.ts)
 	}
 	wg.Wait()
+	Logf("validated %d traces (%d events) with %s", len(traces), events, o.Module)
 	if !o.NoCount {
 		c.Add("trace_events_validated", events)
 		c.Add("traces_validated_against_impl", validated)
